@@ -58,8 +58,8 @@ pub fn write_u8(stream: &mut Cursor, value: u8) -> (r: Result<usize, StatusCode>
     ensures r is Ok ==> final(stream).buf@ == old(stream).buf@.push(value),
 { unimplemented!() }
 // the Part 6 padding count, as proved for the real padding_size in unit c07_sizes
-pub open spec fn secured(c: &SecureChannel) -> bool {
-    c.security_policy != SecurityPolicy::None && c.security_mode != MessageSecurityMode::None
+pub open spec fn encrypting(c: &SecureChannel) -> bool {
+    c.security_policy != SecurityPolicy::None && c.security_mode == MessageSecurityMode::SignAndEncrypt
 }
 pub open spec fn spec_pad(sec: bool, body: usize, sig: usize) -> usize {
     if !sec { 0 } else {
@@ -78,7 +78,7 @@ impl SecureChannel {
     #[verifier::external_body]
     pub fn padding_size(&self, security_header: &SecurityHeader, body_size: usize, signature_size: usize) -> (r: (usize, usize))
         requires self.security_policy != SecurityPolicy::Unknown, body_size <= 0x1000_0000, signature_size <= 256, security_header is Symmetric,
-        ensures r.0 == spec_pad(secured(self), body_size, signature_size), secured(self) ==> r.1 == 1, !secured(self) ==> r.1 == 0,
+        ensures r.0 == spec_pad(encrypting(self), body_size, signature_size), encrypting(self) ==> r.1 == 1, !encrypting(self) ==> r.1 == 0,
     { unimplemented!() }
     #[verifier::external_body]
     pub fn update_message_size_and_truncate(data: Vec<u8>, message_size: usize, decoding_options: &DecodingOptions) -> (r: Result<Vec<u8>, StatusCode>)
@@ -134,7 +134,7 @@ SPEC = {
             let sig = sig_len(self.security_policy) as nat;
             ({
                 let body = spec_body_len(data);
-                let pad = spec_pad(secured(self), body, sig as usize) as nat;
+                let pad = spec_pad(encrypting(self), body, sig as usize) as nat;
                 let total = data.len() + pad + sig;
                 // the chunk, then `pad` bytes each holding pad - 1 (the padding size field counts the bytes after
                 // itself), then room for the signature, with the size field of the header set to the new length
@@ -165,6 +165,17 @@ SPEC = {
                     }))
             }),'''),
 }
+
+LEMMAS = '''
+// Sign mode: the chunk with security applied is the chunk plus its signature, nothing else (Part 6: padding only
+// exists in encrypted chunks); SignAndEncrypt: 1..=16 padding bytes
+proof fn lemma_pad_only_when_encrypting(c: &SecureChannel, body: usize, sig: usize)
+    requires body <= 0x1000_0000, sig <= 256,
+    ensures !encrypting(c) ==> spec_pad(encrypting(c), body, sig) == 0,
+        encrypting(c) ==> 1 <= spec_pad(encrypting(c), body, sig) <= 16,
+{
+}
+'''
 
 CANARY = '''
 proof fn canary_send(c: &SecureChannel, n: nat)
@@ -231,6 +242,7 @@ def build(manifest):
     for n in order:
         a.add(f[n], n, 'fn')
     a.add('}')
+    add_proof_fns(a, LEMMAS, 'lemma')
     add_proof_fns(a, CANARY, 'canary')
     a.add('}\nfn main() {}\n')
     return dict(asm=a, pid=PID, short=SHORT, clauses={k: v[1] for k, v in SPEC.items()}, twins={}, witness={},
